@@ -285,6 +285,11 @@ def cases(tier):
         if KINDS[kind]["link"] or kind in AB_KINDS:
             out.append({"kind": kind, "names": N12, "ops": big, "hp": "AAA", "single": True})
     out.append({"kind": "dims11", "names": [], "ops": [], "hp": None})
+    # long histories in which link TARGETS are deleted and re-created under the same name and linked again, with
+    # by-name look-ups through held handles after every re-link (mc/explorer.soak_histories)
+    for i in range(2):
+        for hs in (None, "AB", "AAB"):
+            out.append({"kind": "soak", "names": [], "ops": [], "hp": hs, "which": i})
     # names that are NOT short: 255 / 256 / 300 / 5 000 characters (the last two differ only in their last character)
     NLONG = ["x" * 255, "y" * 256, "z" * 299 + "a", "z" * 299 + "b", "w" * 4999 + "1", "w" * 4999 + "2"]
     longh = [["create", i] for i in range(6)] + [["create", 3], ["delete", 2, "name"], ["reopen"], ["delete", 3, "name"], ["create", 2]]
@@ -543,6 +548,15 @@ def run_case(case):
     kind = case["kind"]
     if kind == "dims11":
         run_dims11(r)
+        return r
+    if kind == "soak":
+        from mc import explorer as X
+        h = X.soak_histories()[case["which"]]
+        hp = case["hp"]
+        X.run_history("C03", {"seed": "mini", "ops": h, "single": True, "h": None if hp is None else [hp[i % len(hp)] for i in range(len(h))]},
+                      r, check_handles=True)
+        if not r.violations:
+            r.nontrivial = 1
         return r
     K = KINDS[kind]
     names = case["names"]
